@@ -130,6 +130,15 @@ Theorem C01_ledger_impl_is_inheritance : forall g ops c x,
 Proof. exact ledger_impl_is_inheritance_lemma. Qed.
 Print Assumptions C01_ledger_impl_is_inheritance.
 
+(* super proxies: providedBy / implementedBy(super(B, x)) report what the classes after B in the
+   MRO of type(x) implement — between the ledger's bounds for exactly those classes, whatever
+   was asked before for other classes that share B *)
+Theorem C01_super_within_ledger : forall g ops rest,
+  incl (flat_map (lo_implemented g (lrun g ops)) rest) (super_implemented g (run true g ops) rest) /\
+  incl (super_implemented g (run true g ops) rest) (flat_map (hi_implemented g (lrun g ops)) rest).
+Proof. exact super_within_ledger_lemma. Qed.
+Print Assumptions C01_super_within_ledger.
+
 (* ---- The tie to the source TEXT.  Gen/DeclKernel.v is regenerated on every run from
    /repo/src/zope/interface/declarations.py by harness/translate/decl.py (fail closed); its
    functions gen_* are statement-by-statement translations over the primitives of
